@@ -20,7 +20,7 @@ from engine import sym
 from engine.common import DISCHARGED, REFUTED, UNKNOWN, Unit, conformance_unit, ob
 
 PID = "C04"
-KINDS = ["Diag", "ConstantDiag", "Identity", "Triangular", "TriangularUpper", "CholLower", "CholUpper", "Dense", "Sum", "AddedDiag", "ConstantMul", "Matmul"]
+KINDS = ["Diag", "ConstantDiag", "Identity", "Triangular", "TriangularUpper", "TriangularExpanded", "TriangularUpperExpanded", "CholLower", "CholUpper", "Dense", "Sum", "AddedDiag", "ConstantMul", "Matmul"]
 
 
 def _install_leaves(torch, state):
@@ -231,11 +231,11 @@ def _class_invariants(c, kind, op, Dm, b, i):
                 return v
             st.elem = elem
             st._pos_inv = True
-    if kind in ("Triangular", "TriangularUpper", "CholLower", "CholUpper"):
+    if kind in ("Triangular", "TriangularUpper", "TriangularExpanded", "TriangularUpperExpanded", "CholLower", "CholUpper"):
         t = op._args[0]
         while not hasattr(t, "storage"):
             t = t._args[0]
-        upper = kind in ("TriangularUpper", "CholUpper")  # the invariant of the tensor the USER supplied (storage level)
+        upper = kind in ("TriangularUpper", "TriangularUpperExpanded", "CholUpper")  # the invariant of the tensor the USER supplied (storage level)
         st = t.storage
         old = st.elem
         if not getattr(st, "_tri_inv", False):
@@ -262,7 +262,7 @@ def replay(kind):
     import linear_operator
     from linear_operator import settings
 
-    name = {"Diag": "diag", "ConstantDiag": "constdiag", "Identity": "identity", "Triangular": "tri_lower", "TriangularUpper": "tri_upper", "CholLower": "chol_lower",
+    name = {"Diag": "diag", "ConstantDiag": "constdiag", "Identity": "identity", "Triangular": "tri_lower", "TriangularUpper": "tri_upper", "TriangularExpanded": "tri_lower", "TriangularUpperExpanded": "tri_upper", "CholLower": "chol_lower",
             "CholUpper": "chol_upper", "Dense": "dense_psd", "Sum": "sum", "ConstantMul": "constmul", "Matmul": "psdsum", "AddedDiag": "addeddiag"}.get(kind)
     if name is None:
         return {"reproduced": False, "detail": "no native family"}
@@ -272,6 +272,8 @@ def replay(kind):
         for n in (2, 4):
             for mcs in (0, 800):
                 op, dense = case.build(zoo.gen(5), torch.float64, batch, n)
+                if "Expanded" in kind:
+                    op, dense = op.expand(3, *op.shape), dense.expand(3, *dense.shape)
                 g = zoo.gen(6)
                 for rk, B in (("vec", zoo.rn(g, n)), ("mat", zoo.rn(g, n, 3)), ("bmat", zoo.rn(g, *batch, n, 2))):
                     try:
@@ -287,7 +289,7 @@ def replay(kind):
     return {"reproduced": bool(fails), "detail": "; ".join(fails[:3]) or "native family shows no deviation"}
 
 
-STRUCTURED = ["Diag", "ConstantDiag", "Identity", "Triangular", "TriangularUpper", "CholLower", "CholUpper"]
+STRUCTURED = ["Diag", "ConstantDiag", "Identity", "Triangular", "TriangularUpper", "TriangularExpanded", "TriangularUpperExpanded", "CholLower", "CholUpper"]
 GENERIC = ["Dense", "Sum", "ConstantMul", "Matmul"]
 
 
